@@ -75,9 +75,12 @@ def shards(tier):
             out.append({'kind': 'two', 'L': L, 'alpha': ai})
     for i in range(len(LONG_PARTS)):
         out.append({'kind': 'longparts', 'i': i})
+    for n in DISJOINT_N:
+        out.append({'kind': 'disjoint', 'n': n})
     return out
 
 
+DISJOINT_N = (20, 48, 49, 50, 64, 98, 103, 128, 161, 200)      # (1/i)*i rounds below 1 for i = 49, 98, 103, 107, 161, ...
 LONG_PARTS = ((480, 260, 220), (500, 260, 130), (390, 260, 0), (520, 260, 260))       # (text length, end of part 1, start of part 2)
 
 
@@ -340,6 +343,12 @@ def run_shard(shard, ctx, tier):
         for a in P[shard['lo']:shard['hi']]:
             for c in P:
                 guarded_check(mod, {'parts': [a, c]}, ctx)
+    elif shard['kind'] == 'disjoint':
+        # neighbouring parts without a single common symbol (a dotted leader followed by figures, a change of script), of every length class: no
+        # suffix / prefix pair of any length is an overlap, the parts are concatenated unchanged
+        n = shard['n']
+        guarded_check(mod, {'parts': ['ab' * (n // 2) + 'a' * (n % 2), 'cd' * (n // 2) + 'c' * (n % 2)]}, ctx)
+        guarded_check(mod, {'parts': ['.' * n, '12' * (n // 2) + '1' * (n % 2), '-' * n]}, ctx)
     elif shard['kind'] == 'longparts':
         # parts of more than 255 characters, overlaps on both sides of 127 / 255
         n, k, j = LONG_PARTS[shard['i']]
